@@ -560,8 +560,9 @@ impl LanguageServer for IncanLanguageServer {
         let uri = params.text_document.uri;
         let version = params.text_document.version;
 
-        // We use FULL sync, so there's only one change with the full content
-        if let Some(change) = params.content_changes.into_iter().next() {
+        // We use FULL sync: every change event carries the full content and events apply in order,
+        // so the last one is the current text (clients normally send exactly one).
+        if let Some(change) = params.content_changes.into_iter().last() {
             let ticket = self.take_ticket(&uri);
             self.analyze_document(&uri, &change.text, version, ticket).await;
         }
